@@ -145,10 +145,18 @@ def run(F, tier, res):
         none_blocks = [i for i, b in enumerate(F.blocks(q)) if not b['cleanup'] and any(
             st[0] == 'assign' and st[1]['l'] == 0 and not st[1]['p'] and st[2][0] == 'agg' and st[2][1][0] == 'adt' and st[2][1][1].endswith('Option') and st[2][1][2] == 0
             for st in b['s'])]
+        obs = {}
         try:
-            r = fdeval.reach_with(F, q, {k: True for k in raw_params})
+            r = fdeval.reach_with(F, q, {k: True for k in raw_params}, observe=obs)
         except fdeval.Undecidable:
             r = set(range(len(F.blocks(q))))
+        # `flag.then(|| ..)` / `flag.then_some(..)`: None comes out of the library call when the flag is false
+        thens = [i for i, c in F.calls(q) if callee_of(c).endswith(('bool::then', 'bool::then_some')) or 'bool>::then' in callee_of(c)]
+        then_bad = [i for i in thens if i in r and obs.get(i, {None}) != {True}]
+        if thens and not none_blocks:
+            none_blocks = thens if then_bad else [-1]
+            if not then_bad:
+                r = r - {-1}
         if found and none_blocks and not any(nb in r for nb in none_blocks):
             okr += 1
         else:
